@@ -32,6 +32,8 @@ TimeClasses == {"utc", "gen", "cross1950", "cross2050", "far"}    \* window insi
 ResShapes == {"one", "many", "ends", "woven", "inherit"}
 UriForms == {"dir", "nodir"}                              \* repository URI with / without trailing slash
 Items == 1..4
+\* (a ROA has a fifth kind of prefix: one that starts where the first starts and is more specific - two list entries, one first address)
+ItemsOf(k) == IF k = "roa" THEN 1..5 ELSE Items
 Feeds == {"exact", "lazy"}                                \* the list handed to the builder: a slice / an iterator that does not know its length
 \* concrete values of the classes: the replayer builds with exactly these, and the expected DER forms
 \* (time tags, minimal INTEGER) are computed here from X509Time's encoder model
@@ -63,7 +65,7 @@ Init == /\ kind \in Kinds /\ serial \in SerialClasses /\ times \in TimeClasses /
 AddItem == /\ Len(items) < 3
            /\ kind \in {"crl", "mft", "roa", "aspa"}
            \* any insertion order, duplicates included (an ASPA provider set refuses duplicates at construction: distinct there)
-           /\ \E x \in Items : (kind = "aspa" => \A i \in 1..Len(items) : items[i] # x) /\ items' = Append(items, x)
+           /\ \E x \in ItemsOf(kind) : (kind = "aspa" => \A i \in 1..Len(items) : items[i] # x) /\ items' = Append(items, x)
            /\ UNCHANGED <<kind, serial, times, res, uriform, feed>>
 Next == AddItem
 Spec == Init /\ [][Next]_vars
